@@ -10,6 +10,7 @@ import (
 	"net/http"
 	"sort"
 	"strings"
+	"sync"
 	"time"
 
 	connect "github.com/bufbuild/connect-go"
@@ -121,12 +122,21 @@ type World struct {
 
 	buildingClient bool
 	faultAssigned  bool
-	recoverErr     func(o *CallObs, v any) error
+
+	marshalMu   sync.Mutex
+	MarshalEnds []time.Time // fake instants at which a slow client codec finished marshalling a message
+	recoverErr  func(o *CallObs, v any) error
 }
 
 //go:norace
 //go:noinline
 func stepsNow(s *core.Sched) int { return s.Steps }
+
+func (w *World) noteMarshalEnd(t time.Time) {
+	w.marshalMu.Lock()
+	w.MarshalEnds = append(w.MarshalEnds, t)
+	w.marshalMu.Unlock()
+}
 
 func NewWorld(s *core.Sched, sc *Scenario) *World { return newWorld(s, sc, false) }
 
@@ -260,10 +270,21 @@ func (t *tagInterceptor) WrapUnary(next connect.UnaryFunc) connect.UnaryFunc {
 	return func(ctx context.Context, req connect.AnyRequest) (connect.AnyResponse, error) {
 		if o := t.w.byID[req.Header().Get(callHeader)]; o != nil && !req.Spec().IsClient {
 			o.InterceptLog = append(o.InterceptLog, t.tag+":in")
-			defer func() { o.InterceptLog = append(o.InterceptLog, t.tag+":out") }()
+			returned := false
+			defer func() {
+				if returned {
+					o.InterceptLog = append(o.InterceptLog, t.tag+":out")
+				} else {
+					o.InterceptLog = append(o.InterceptLog, t.tag+":panic") // a panic is unwinding through this interceptor
+				}
+			}()
 			if o.Plan.InterceptorErr && t.tag == "i0" {
+				returned = true
 				return nil, o.Plan.HErr.build(ctx)
 			}
+			resp, err := next(ctx, req)
+			returned = true
+			return resp, err
 		}
 		return next(ctx, req)
 	}
@@ -277,17 +298,30 @@ func (t *tagInterceptor) WrapStreamingHandler(next connect.StreamingHandlerFunc)
 	return func(ctx context.Context, conn connect.StreamingHandlerConn) error {
 		if o := t.w.byID[conn.RequestHeader().Get(callHeader)]; o != nil {
 			o.InterceptLog = append(o.InterceptLog, t.tag+":in")
-			defer func() { o.InterceptLog = append(o.InterceptLog, t.tag+":out") }()
+			returned := false
+			defer func() {
+				if returned {
+					o.InterceptLog = append(o.InterceptLog, t.tag+":out")
+				} else {
+					o.InterceptLog = append(o.InterceptLog, t.tag+":panic") // a panic is unwinding through this interceptor
+				}
+			}()
 			if o.Plan.InterceptorErr && t.tag == "i0" {
+				returned = true
 				return o.Plan.HErr.build(ctx)
 			}
 			if o.Plan.InterceptorErrAfter && t.tag == "i0" {
 				// the handler has responded; the interceptor fails afterwards
-				if err := next(ctx, conn); err != nil {
+				err := next(ctx, conn)
+				returned = true
+				if err != nil {
 					return err
 				}
 				return o.Plan.HErr.build(ctx)
 			}
+			err := next(ctx, conn)
+			returned = true
+			return err
 		}
 		return next(ctx, conn)
 	}
@@ -351,10 +385,11 @@ func (w *World) client(p *CallPlan) *connect.Client[Msg, Msg] {
 	for _, name := range cfg.NilAccept {
 		opts = append(opts, connect.WithAcceptCompression(name, nil, nil))
 	}
-	if cfg.FailCodec || cfg.OwnTypeCodec {
-		opts = append(opts, connect.WithCodec(&simCodec{name: "proto", inner: pbCodec{}, ownTypeEOF: cfg.OwnTypeCodec}))
+	if cfg.FailCodec || cfg.OwnTypeCodec || cfg.SlowMarshal > 0 {
+		done := func(t time.Time) { w.noteMarshalEnd(t) }
+		opts = append(opts, connect.WithCodec(&simCodec{name: "proto", inner: pbCodec{}, ownTypeEOF: cfg.OwnTypeCodec, slow: cfg.SlowMarshal, done: done}))
 		if cfg.JSON {
-			opts = append(opts, connect.WithCodec(&simCodec{name: "json", inner: pbCodec{json: true}}))
+			opts = append(opts, connect.WithCodec(&simCodec{name: "json", inner: pbCodec{json: true}, slow: cfg.SlowMarshal, done: done}))
 		}
 	}
 	if cfg.SendComp != "" {
@@ -1101,6 +1136,19 @@ func (w *World) runCall(t *core.Task, o *CallObs) {
 				w.opGate(o, "cancel")
 				cancel()
 			}
+		}
+		if p.RecvPastEnd && o.FinalSet {
+			// one more Receive after the stream has reported its end (a drain
+			// helper, a loop that checks Err() afterwards)
+			w.opGate(o, "recv")
+			t.SetWhere(p.ID + " Receive")
+			r := OpRec{Op: "recvmore", Start: stepsNow(w.S), StartT: time.Now()}
+			if stream.Receive() {
+				r.HasMsg, r.Msg = true, w.recvValue(o, stream.Msg())
+			} else if r.Err = stream.Err(); r.Err == nil {
+				r.Err = io.EOF
+			}
+			w.rec(o, false, r)
 		}
 		if o.FinalSet {
 			o.RawHeader, o.RawTrailer = stream.ResponseHeader(), stream.ResponseTrailer()
